@@ -433,6 +433,12 @@ def run_effects(case, ctx):
             ctxs = [{k: rng.choice(dom[k]) for k in rng.sample(sorted(dom), rng.randint(1, 2))} for _ in range(rng.choice([0, 1, 1, 2]))]
             explicit = {k: rng.choice(dom[k]) for k in rng.sample(sorted(dom), rng.choice([0, 1, 1, 2]))}
             steps.append(dict(contexts=ctxs, explicit=explicit, backend=rng.choice(["loky", "loky", "loky", "multiprocessing"])))
+        if case["i"] % 2 == 0:
+            # directed: the same executor arguments three times in a row (the executor is reused), only the folder's scope changes
+            x, y = rng.sample(["A", "B"], 2)
+            steps = [dict(contexts=[{"temp_folder": x, "max_nbytes": 1000}], explicit={}, backend="loky"),
+                     dict(contexts=[], explicit={"max_nbytes": 1000}, backend="loky"),
+                     dict(contexts=[{"max_nbytes": 1000}], explicit={"temp_folder": y}, backend="loky")] + steps
         cf, of = os.path.join(d, "cfg.json"), os.path.join(d, "out.json")
         with open(cf, "w") as f:
             json.dump(dict(steps=steps, folders=folders), f)
